@@ -66,7 +66,7 @@ package parser
 //@   ensures p.offset >= old(p.offset) && p.chrOffset >= old(p.chrOffset)
 //@   ensures lexLE(p)
 //@   ensures old(p.offset) < p.length ==> p.chrOffset == old(p.offset) && p.offset > old(p.offset) && p.chr >= 0
-//@   ensures old(p.offset) >= p.length ==> p.chr == -1 && p.offset == old(p.offset)
+//@   ensures old(p.offset) >= p.length ==> p.chr == -1 && p.offset == old(p.offset) && p.chrOffset == p.length
 //@   ensures lexLT(p) || old(p.chr) == -1
 //@   modifies parser.chr, parser.chrOffset, parser.offset, parser.errors, elems(*Error), cell(ErrorList)
 //@   nothrow
@@ -169,7 +169,13 @@ package parser
 //@   props C04
 //@   safety C04
 //@   requires wfParser(p) && 0 <= offset && offset < p.chrOffset
+//@   ensures isnil(result1) && old(p.str[offset]) != 32 ==> len(result0) >= 2
+// 7.8.5: a regular expression literal that is not closed before the end of its line or of the
+// input is an error that is reported (also inside a character class), never a shorter literal
+//@   calls (*parser).error(_, _, _, _) as er whenret !isnil(result1) && old(p.str[offset]) == 47
+//@   ensures isnil(result1) ==> old(p.chr) >= 0
 //@   invariant@1 wfParser(p) && sameSource(p) && p.offset >= old(p.offset) && p.chrOffset >= old(p.chrOffset) && lexLE(p)
+//@   invariant@1 quote == rune(old(p.str[offset])) || quote == -1 || quote == 47
 //@   decreases@1 up p.offset to p.length ; bool2int(p.chr >= 0)
 //@   ensures wfParser(p)
 //@   ensures sameSource(p)
@@ -177,6 +183,22 @@ package parser
 //@   ensures lexLE(p)
 //@   modifies parser.chr, parser.chrOffset, parser.offset, parser.errors, elems(*Error), cell(ErrorList)
 //@   nothrow
+
+// A regular expression literal (7.8.5) is scanned again from its opening slash: the scanner has
+// just delivered "/" or "/=" (ASSUMED of the one caller, parsePrimaryExpression), so the
+// re-scan starts at the character "/" - one or two characters back - and the literal text kept
+// in the tree is a slice of the source that starts there.
+//@ func (*parser).next
+//@   inline
+//@ func (*parser).parseRegExpLiteral
+//@   props C04 C10
+//@   safety C04
+//@   requires wfParser(p) && p.comments != nil && p.file != nil && 0 <= p.base && p.base <= 1099511627776
+//@   requires p.token == token.SLASH || p.token == token.QUOTIENT_ASSIGN
+//@   requires p.token == token.SLASH ==> p.chrOffset >= 1 && p.str[p.chrOffset-1] == 47
+//@   requires p.token == token.QUOTIENT_ASSIGN ==> p.chrOffset >= 2 && p.str[p.chrOffset-2] == 47 && p.str[p.chrOffset-1] == 61
+//@   at_call (*parser).scanString : 0 <= arg1 && arg1 < p.chrOffset && p.str[arg1] == 47
+//@   ensures result != nil && len(result.Literal) >= 0
 
 //@ func (*parser).scanNumericLiteral
 //@   props C04
@@ -335,6 +357,7 @@ package parser
 //@   ensures sameSource(p)
 //@   ensures p.base <= int(idx) && int(idx) <= p.base + p.length
 //@   ensures tkn == token.EOF || lexLT(p)
+//@   ensures p.chrOffset >= old(p.chrOffset)
 //@   nothrow
 
 // ---------------------------------------------------------------------------
